@@ -1,13 +1,253 @@
-//! Template-specific projections recorded after every step (swarm memories, molecules, pheromones).
+//! Template-specific projections recorded after every step: swarm memories (C18), molecules and
+//! energy buffer (C20), pheromone matrix and tours (C19).  Float facts are reduced to named
+//! predicates (DESIGN §2.4, P-pred) evaluated here in f64 and required to hold by spec/Run.tla;
+//! objective values are emitted as {"$obj": bits} and replaced by their rank by the projector.
+use std::sync::Mutex;
+
+use mahf::{
+    components::{
+        generative::PheromoneMatrix,
+        misc::cro::{ChemicalReaction, EnergyBuffer},
+        swarm::pso::{BestParticle, BestParticles, InertiaWeight, ParticleVelocities, ParticleVelocitiesUpdate},
+    },
+    identifier::Global,
+    lens::ValueOf,
+    state::common::{Iterations, Populations, Progress},
+    Individual, State,
+};
 use serde_json::{json, Value};
 
-use super::templates::Extra;
-use crate::runproblems::{RealProblem, TspProblem};
+use super::templates::{Extra, RawInd};
+use crate::runproblems::{Instrumented, RealProblem, TspProblem};
 
-pub fn real_extra(_name: &str, _params: &Value) -> Extra<RealProblem> {
-    Box::new(|_, _, _| (Vec::new(), json!({})))
+fn obj_of<P: Instrumented>(i: &Individual<P>) -> Value {
+    match i.get_objective() {
+        Some(o) => json!({"$obj": o.value().to_bits().to_string()}),
+        None => json!({"$obj": "none"}),
+    }
 }
 
-pub fn tsp_extra(_name: &str, _params: &Value) -> Extra<TspProblem> {
-    Box::new(|_, _, _| (Vec::new(), json!({})))
+fn raw<P: Instrumented>(problem: &P, i: &Individual<P>) -> RawInd {
+    let obj = i.get_objective().map(|o| o.value().to_bits());
+    let fresh = match obj {
+        None => true,
+        Some(b) => b == problem.pure(i.solution()).to_bits(),
+    };
+    RawInd { sol: P::show(i.solution()), obj, fresh }
+}
+
+#[derive(Default)]
+struct PsoPrev {
+    xs: Vec<Vec<f64>>,
+    vs: Vec<Vec<f64>>,
+    w: f64,
+}
+
+fn pso_extra(params: &Value) -> Extra<RealProblem> {
+    let v_max = params["v_max"].as_f64().unwrap();
+    let (c1, c2) = (params["c_one"].as_f64().unwrap(), params["c_two"].as_f64().unwrap());
+    let (start, end) = (params["start_weight"].as_f64().unwrap(), params["end_weight"].as_f64().unwrap());
+    let prev: Mutex<PsoPrev> = Mutex::new(PsoPrev::default());
+    Box::new(move |problem, state: &State<RealProblem>, name| {
+        type P = RealProblem;
+        let mut others = Vec::new();
+        let xs: Vec<Vec<f64>> = state
+            .try_borrow::<Populations<P>>()
+            .ok()
+            .and_then(|p| p.get_current().map(|c| c.iter().map(|i| i.solution().clone()).collect()))
+            .unwrap_or_default();
+        let vs: Option<Vec<Vec<f64>>> = state.try_borrow::<ParticleVelocities<Global>>().ok().map(|v| (**v).clone());
+        let pb = state.try_borrow::<BestParticles<P, Global>>().ok();
+        let gb = state.try_borrow::<BestParticle<P, Global>>().ok();
+        let w = state.try_get_value::<InertiaWeight<ParticleVelocitiesUpdate>>().ok();
+        let progress = state.try_get_value::<Progress<ValueOf<Iterations>>>().ok();
+        let mut p = prev.lock().unwrap();
+        let vmax_ok = vs.as_ref().map(|vs| vs.iter().flatten().all(|v| v.abs() <= v_max)).unwrap_or(true);
+        // after a velocity update: every particle moved by exactly its new velocity
+        let (mut moved, mut vexact) = (2, 2);
+        if name == "ParticleVelocitiesUpdate" {
+            if let Some(vs) = &vs {
+                let same_shape = vs.len() == xs.len() && p.xs.len() == xs.len() && p.vs.len() == vs.len();
+                moved = (same_shape
+                    && xs.iter().zip(&p.xs).zip(vs).all(|((x, xo), v)| {
+                        x.len() == xo.len() && x.len() == v.len() && x.iter().zip(xo).zip(v).all(|((x, xo), v)| x.to_bits() == (xo + v).to_bits())
+                    })) as i64;
+                if c1 == 0.0 && c2 == 0.0 {
+                    // without acceleration terms the new velocity is exactly the stored weight times the old one, clamped
+                    // (the code adds c*rand()*(..) = 0*.. = 0.0, which does not change the sum)
+                    vexact = (same_shape
+                        && vs.iter().zip(&p.vs).all(|(v, vo)| {
+                            v.iter().zip(vo).all(|(v, vo)| {
+                                let want = (p.w * vo + 0.0 + 0.0).clamp(-v_max, v_max);
+                                v.to_bits() == want.to_bits() || (*v == 0.0 && want == 0.0)
+                            })
+                        })) as i64;
+                }
+            }
+        }
+        // after the inertia-weight update: the configured linear interpolation at the loop's current progress
+        let mut wexact = 2;
+        if name == "Linear" {
+            if let (Some(w), Some(pr)) = (w, progress) {
+                wexact = (w.to_bits() == ((end - start) * pr + start).to_bits()) as i64;
+            }
+        }
+        let pbr: Vec<Value> = pb.as_ref().map(|b| b.iter().map(obj_of).collect()).unwrap_or_default();
+        if let Some(b) = &pb {
+            others.extend(b.iter().map(|i| raw(problem, i)));
+        }
+        let gbr = match gb.as_ref().and_then(|g| g.as_ref()) {
+            Some(i) => {
+                others.push(raw(problem, i));
+                obj_of(i)
+            }
+            None => json!({"$obj": "none"}),
+        };
+        let x = json!({
+            "np": xs.len(), "nv": vs.as_ref().map(|v| v.len() as i64).unwrap_or(-1),
+            "npb": pb.as_ref().map(|b| b.len() as i64).unwrap_or(-1),
+            "vmax_ok": vmax_ok as i64, "moved": moved, "vexact": vexact, "wexact": wexact,
+            "pbr": pbr, "gbr": gbr,
+        });
+        p.xs = xs;
+        if let Some(vs) = vs {
+            p.vs = vs;
+        }
+        if let Some(w) = w {
+            p.w = w;
+        }
+        (others, x)
+    })
+}
+
+fn cro_extra(_params: &Value) -> Extra<RealProblem> {
+    let prev_energy: Mutex<Option<f64>> = Mutex::new(None);
+    Box::new(move |problem, state: &State<RealProblem>, _name| {
+        type P = RealProblem;
+        let mut others = Vec::new();
+        let pops = state.try_borrow::<Populations<P>>().ok();
+        let reaction = state.try_borrow::<ChemicalReaction<P>>().ok();
+        let buffer = state.try_get_value::<EnergyBuffer>().ok();
+        let (mut on, mut nm, mut nb) = (0, -1i64, -1i64);
+        let (mut ke_ok, mut buf_ok, mut cons, mut best_le) = (1, 1, 1, 1);
+        if let (Some(pops), Some(reaction), Some(buffer)) = (pops, reaction, buffer) {
+            if pops.len() >= 1 && !reaction.is_empty() {
+                on = 1;
+                // the molecules belong to the bottom population of the stack (reactants and products are above it)
+                let base = pops.peek(pops.len() - 1);
+                nm = reaction.len() as i64;
+                nb = base.len() as i64;
+                ke_ok = reaction.iter().all(|m| m.kinetic_energy >= 0.0) as i64;
+                buf_ok = (buffer >= 0.0) as i64;
+                let evaluated = base.iter().all(|i| i.is_evaluated());
+                if evaluated {
+                    let e: f64 = base.iter().map(|i| i.objective().value()).sum::<f64>()
+                        + reaction.iter().map(|m| m.kinetic_energy).sum::<f64>()
+                        + buffer;
+                    let mut pe = prev_energy.lock().unwrap();
+                    if let Some(old) = *pe {
+                        cons = ((e - old).abs() <= 1e-9 * old.abs().max(1.0)) as i64;
+                    }
+                    *pe = Some(e);
+                    // molecule i remembers the best individual i was: never worse than the individual itself
+                    best_le = (nm == nb && reaction.iter().zip(base).all(|(m, i)| m.best.objective() <= i.objective())) as i64;
+                }
+                others.extend(reaction.iter().map(|m| raw(problem, &m.best)));
+            }
+        }
+        (others, json!({"on": on, "nm": nm, "nb": nb, "ke_ok": ke_ok, "buf_ok": buf_ok, "cons": cons, "best_le": best_le}))
+    })
+}
+
+fn aco_extra(name: &str, params: &Value) -> Extra<TspProblem> {
+    let rho = params["evaporation"].as_f64().unwrap();
+    let minmax = name == "max_min_ant_system";
+    let c = params["decay_coefficient"].as_f64().unwrap_or(1.0);
+    let (lo, hi) = (params["min_pheromones"].as_f64().unwrap_or(0.0), params["max_pheromones"].as_f64().unwrap_or(f64::INFINITY));
+    let prev: Mutex<Vec<Vec<f64>>> = Mutex::new(Vec::new());
+    Box::new(move |problem, state: &State<TspProblem>, step| {
+        type P = TspProblem;
+        let d = problem.dim;
+        let pm: Option<Vec<Vec<f64>>> = state.try_borrow::<PheromoneMatrix>().ok().map(|m| (0..d).map(|i| m[i].to_vec()).collect());
+        let tours: Vec<Individual<P>> =
+            state.try_borrow::<Populations<P>>().ok().and_then(|p| p.get_current().map(|c| c.to_vec())).unwrap_or_default();
+        let (mut perm_ok, mut greedy_ok, mut cell_ok, mut sym, mut finite, mut bounds) = (2, 2, 2, 2, 2, 2);
+        let mut old = prev.lock().unwrap();
+        if let Some(pm) = &pm {
+            finite = pm.iter().flatten().all(|v| v.is_finite() && *v >= 0.0) as i64;
+            sym = (0..d).all(|a| (0..d).all(|b| pm[a][b].to_bits() == pm[b][a].to_bits())) as i64;
+            if minmax {
+                bounds = (0..d).all(|a| (0..d).all(|b| a == b || (pm[a][b] >= lo && pm[a][b] <= hi))) as i64;
+            }
+            if step == "AcoGeneration" {
+                perm_ok = tours.iter().all(|t| {
+                    let s = t.solution();
+                    let mut seen = vec![false; d];
+                    s.len() == d && s.first() == Some(&0) && s.iter().all(|&c| c < d && !std::mem::replace(&mut seen[c], true))
+                }) as i64;
+                // the first tour is greedy w.r.t. the current matrix: each next city has a maximal trail among the remaining
+                greedy_ok = tours.first().map(|t| {
+                    let s = t.solution();
+                    (1..s.len()).all(|k| {
+                        let last = s[k - 1];
+                        s[k..].iter().all(|&r| pm[last][s[k]] >= pm[last][r])
+                    })
+                }).unwrap_or(false) as i64;
+            }
+            if (step == "AsPheromoneUpdate" || step == "MinMaxPheromoneUpdate") && old.len() == d {
+                // expected matrix: evaporate every trail, then deposit symmetrically on consecutive cities of the rewarded tours
+                let mut want: Vec<Vec<f64>> = old.iter().map(|r| r.iter().map(|v| v * (1.0 - rho)).collect()).collect();
+                let mut reinforced = vec![vec![false; d]; d];
+                let rewarded: Vec<&Individual<P>> = if minmax {
+                    tours.iter().skip(1).min_by(|a, b| a.objective().value().total_cmp(&b.objective().value())).into_iter().collect()
+                } else {
+                    tours.iter().skip(1).collect()
+                };
+                for t in rewarded {
+                    let delta = if minmax { 1.0 } else { c } / t.objective().value();
+                    let s = t.solution();
+                    for k in 1..s.len() {
+                        let (a, b) = (s[k - 1], s[k]);
+                        want[a][b] += delta;
+                        want[b][a] += delta;
+                        reinforced[a][b] = true;
+                        reinforced[b][a] = true;
+                    }
+                }
+                cell_ok = (0..d).all(|a| {
+                    (0..d).all(|b| {
+                        let w = want[a][b];
+                        let got = pm[a][b];
+                        let close = |x: f64, y: f64| (x - y).abs() <= 1e-9 * y.abs().max(1e-300);
+                        if !minmax {
+                            close(got, w)
+                        } else if reinforced[a][b] {
+                            // may have been clamped between two deposits on the same edge
+                            close(got, w.clamp(lo, hi)) || (got >= lo && got <= hi)
+                        } else {
+                            close(got, w) || close(got, w.clamp(lo, hi))
+                        }
+                    })
+                }) as i64;
+            }
+            *old = pm.clone();
+        }
+        let _ = problem;
+        (Vec::new(), json!({"perm_ok": perm_ok, "greedy_ok": greedy_ok, "cell_ok": cell_ok, "sym": sym, "finite": finite, "bounds": bounds}))
+    })
+}
+
+pub fn real_extra(name: &str, params: &Value) -> (String, Extra<RealProblem>) {
+    match name {
+        "real_pso" => ("pso".to_string(), pso_extra(params)),
+        "real_cro" => ("cro".to_string(), cro_extra(params)),
+        _ => ("-".to_string(), Box::new(|_, _, _| (Vec::new(), json!({})))),
+    }
+}
+
+pub fn tsp_extra(name: &str, params: &Value) -> (String, Extra<TspProblem>) {
+    match name {
+        "ant_system" | "max_min_ant_system" => ("aco".to_string(), aco_extra(name, params)),
+        _ => ("-".to_string(), Box::new(|_, _, _| (Vec::new(), json!({})))),
+    }
 }
